@@ -77,6 +77,8 @@ type TaskScript struct {
 	HookExit            int // hook / basic task: exit code reported when triggered
 	HookNeverTerminates bool
 	HookInvoluntary     bool
+	// HookQuick: the hook's child ends before the acknowledgement of the trigger travels back
+	HookQuick bool
 }
 
 type SimTask struct {
@@ -849,6 +851,12 @@ func (w *World) message(m *scheduler.Call_Message, lg *CallLog) error {
 		t.Commands = append(t.Commands, rc)
 		w.mu.Unlock()
 		res := controlcommands.NewMesosCommandResponse_TriggerHook(&cmd, nil, t.ID)
+		if sc.HookQuick && !sc.HookNeverTerminates {
+			// a very short hook: BASIC_TASK_TERMINATED overtakes the acknowledgement of the trigger
+			w.BasicTaskTerminated(t, sc.HookExit, !sc.HookInvoluntary)
+			w.sendToCore(t, res, 15*time.Millisecond)
+			return nil
+		}
 		w.sendToCore(t, res, 10*time.Millisecond)
 		if !sc.HookNeverTerminates {
 			w.S.Go("mesos-hook-exit", func() {
